@@ -14,6 +14,7 @@ V(n) == <<n, FALSE>>
 NZ == <<0, TRUE>>                                                     \* -0.0
 Den == 8
 RowsA == {<<V(8)>>, <<V(0), V(0)>>, <<NZ, V(0)>>, <<V(2), V(-20)>>, <<V(8), V(8), V(-8)>>, <<V(1000), V(1), V(-3), V(0)>>,
+          <<V(8), V(-8)>>, <<V(2), V(-3), V(1)>>,                          \* non-zero coefficients that cancel in sum
           <<V(2), V(-20), V(8), V(1), V(-3)>>, <<V(8), V(-8), V(2), V(2), NZ, V(-20)>>, <<V(0), V(0), V(0), V(0), V(0)>>}
 BiasA == IF LEVEL >= 2 THEN {V(0), NZ, V(8), V(-20), V(1)} ELSE {V(0), NZ, V(-20)}
 Bd(k, v) == [k |-> k, v |-> v]
